@@ -113,6 +113,8 @@ MENU = [
        default=("v", 7)),
     FD("mode-rw-no-output-w", "Field(mode='rw', no_output='w', default=7)", mode="rw", no_output="w", required=False,
        default=("v", 7)),
+    # a required field whose no_input predicate ignores the value 2: that input leaves the field absent
+    FD("no-input-pred-req", "Field(no_input=" + PRED2 + ")", no_input=("pred", _pred2)),
 ]
 MENU_BY_TAG = {m.tag: m for m in MENU}
 QUICK_MENU = 8
